@@ -151,8 +151,8 @@ produceLoop:
 }
 
 func getOctoSQLValue(t octosql.Type, value *fastjson.Value) (out octosql.Value, ok bool) {
-	if value == nil {
-		return octosql.NewNull(), t.TypeID == octosql.TypeIDNull
+	if value == nil || value.Type() == fastjson.TypeNull {
+		return octosql.NewNull(), octosql.Null.Is(t) == octosql.TypeRelationIs
 	}
 
 	switch t.TypeID {
@@ -189,6 +189,10 @@ func getOctoSQLValue(t octosql.Type, value *fastjson.Value) (out octosql.Value, 
 	case octosql.TypeIDList:
 		if value.Type() == fastjson.TypeArray {
 			arr, _ := value.Array()
+			if t.List.Element == nil && len(arr) > 0 {
+				// Only empty arrays have been seen when inferring the type.
+				break
+			}
 			values := make([]octosql.Value, len(arr))
 
 			outOk := true
